@@ -558,6 +558,46 @@ def gen_rec_switch(rng, faults=True, n_max=9, **kw):
     return spec
 
 
+def gen_rec_oneofc(rng, faults=True, n_max=9, **kw):
+    """a one-of ON a recurrent path whose candidates are constants outside the path (they depend on the input node
+    only, some of them failing): the consumer of the one-of is re-executed in every iteration, the candidates are not.
+    Counterpart of rec_switch for InputOneOf; clean on the tree with F28 and claimed."""
+    b = Builder(rng)
+    n0 = b.new([])
+    ncand = rng.choice([2, 2, 3])
+    cands = []
+    for i in range(ncand):
+        c = b.new(b.in_params([n0]))
+        if rng.random() < 0.3:
+            c = b.new(b.in_params([c]))
+        cands.append(c)
+    start = b.new(b.in_params([n0]), add_data=True)
+    up = start
+    if rng.random() < 0.4:
+        up = b.new(b.in_params([start]))
+    cons = b.new([['a0', ['OneOf', cands]], ['a1', ['In', up]]])
+    dest_src = cons
+    if rng.random() < 0.3:
+        dest_src = b.new(b.in_params([cons]))
+    mx = rng.choice([1, 2, 3, 4])
+    dest = b.new(b.in_params([dest_src]), rec={'start': start, 'k': rng.choice([0, 1, 1, 2, 2, 3, mx, mx + 1])})
+    out = b.new([['a0', ['Rec', start, dest, mx]]])
+    spec = {'nodes': b.nodes, 'input': n0, 'output': out}
+    assign_modes(rng, spec['nodes'])
+    nodes = {n['name']: n for n in spec['nodes']}
+    if faults:
+        for c in cands[:rng.choice([0, 1, 1, 2, ncand])]:
+            nodes[c]['plan'] = [rng.choice(['E1', 'E2', 'E3'])] * rng.choice([1, 1, 2])
+            if rng.random() < 0.3:
+                nodes[c]['retry'] = {'attempts': rng.choice([1, 2, 3]), 'delay': rng.choice(RETRY_DELAY),
+                                     'exceptions': rng.choice(RETRY_EXC), 'use_default': False}
+    if rng.random() < 0.5:
+        r = nodes[dest].setdefault('retry', {'attempts': None, 'delay': None, 'exceptions': None})
+        r['use_default'] = True
+    spec['class'] = 'rec_oneofc'
+    return spec
+
+
 _CORPUS = None
 
 
@@ -1006,6 +1046,7 @@ GENERATORS['hub'] = gen_hub
 GENERATORS['corpus'] = gen_corpus
 GENERATORS['rec_mixed'] = gen_rec_mixed
 GENERATORS['rec_switch'] = gen_rec_switch
+GENERATORS['rec_oneofc'] = gen_rec_oneofc
 GENERATORS['rec_inner'] = gen_rec_inner
 GENERATORS['oneof_rec'] = gen_oneof_rec
 
